@@ -388,6 +388,13 @@ def run_check(pid: str, tier: str) -> int:
             reported.append({"oracle": oracle, "sig": sig, "replay": path, "count": len(lst)})
         n_viol = sum(len(l) for l in groups.values())
         extra["violation_classes"] = reported
+        extra["all_violation_classes"] = [
+            {"oracle": o, "sig": s_, "count": len(l), "first_index": l[0][0]["i"],
+             "detail": l[0][1]["detail"][:300]}
+            for (o, s_), l in sorted(groups.items())]
+        for c in extra["all_violation_classes"][3:]:
+            print(f"  (also) oracle={c['oracle']} sig={c['sig']} count={c['count']} "
+                  f"first_index={c['first_index']}", flush=True)
     ev = write_evidence(prop, tier, master, total, n_viol, known_seen, extra)
     zero = [p for p in getattr(prop, "EXPECTED_PROBES", []) if not total["probes"].get(p)]
     if zero and tier == "thorough":
